@@ -71,6 +71,11 @@ def gen(rng, ctx):
             cd["edges"] += [[x, "top"] for x in fan]
             n = "top"
     outs = G.cd_outputs(cd)
+    if rng.random() < 0.08:
+        # an unknown-value tie-off in another part of the circuit (never in the cone of n): cone-restricted
+        # analyses of n are not concerned by it
+        cd["nodes"] += [["kx", "x", False], ["gx", rng.choice(["and", "or", "xor"]), True]]
+        cd["edges"] += [["kx", "gx"], [rng.choice([x for x in nodes if tps[x] == "input"]), "gx"]]
     eps = None
     if rng.random() < 0.4 and outs:
         eps = rng.sample(outs, rng.randint(1, len(outs)))
@@ -102,15 +107,20 @@ def check(case, ctx):
     ins = sorted(net.inputs())
     if len(ins) > 12:
         return
-    k = len(ins)
-    mask = (1 << (1 << k)) - 1
-    vals, _ = sim.functions(net, ins)
-    if net.has_x():
-        return
-    # cone startpoints of n (own reachability)
     from rv.oracle.graphdefs import reach
 
     cone = reach(net.preds, [n]) | {n}
+    xs = sorted(x for x, t in net.types.items() if t == "x")
+    if any(x in cone for x in xs):
+        ctx.count("skipped:x_in_cone")
+        return
+    if xs:
+        ctx.count("x_constant_outside_the_cone")
+    ins_all = ins + xs  # `x` nodes outside the cone: opaque extra sources for the reference simulation
+    k = len(ins_all)
+    mask = (1 << (1 << k)) - 1
+    vals, _ = sim.functions(net, ins_all)
+    # cone startpoints of n (own reachability)
     sp = sorted(x for x in cone if net.types[x] == "input")
     ctx.count(f"cone_startpoints:{len(sp)}")
     if len(sp) < 2 or not any(t in G.GATESN and len(net.preds[x]) > 1 for x, t in net.types.items()):
@@ -119,7 +129,7 @@ def check(case, ctx):
     # ------------------------------------------------------------ sensitization_transform
     eps = case["endpoints"]
     eset = ({eps} if isinstance(eps, str) else set(eps)) if eps else set(net.outputs)
-    forced, _ = sim.functions(net, ins, override={n: (lambda v: v ^ mask)})
+    forced, _ = sim.functions(net, ins_all, override={n: (lambda v: v ^ mask)})
     diff = 0
     for e in eset:
         diff |= vals[e] ^ forced[e]
@@ -129,8 +139,15 @@ def check(case, ctx):
         for e in eset:
             fi |= reach(net.preds, [e])
         in_domain = n in fi or n in eset
-    ok, m = ctx.call(cg.tx.sensitization_transform, c, n, eps)
-    if not ok:
+    x_reaches_eps = bool(xs) and (not eps or any(x in reach(net.preds, [e]) for e in eset for x in xs))
+    if x_reaches_eps:
+        ok, m = True, None
+        ctx.count("skipped:sensitization_with_x_in_scope")
+    else:
+        ok, m = ctx.call(cg.tx.sensitization_transform, c, n, eps)
+    if m is None and ok:
+        pass
+    elif not ok:
         if isinstance(m, ValueError) and eps and n not in fi:
             ctx.reject("node_not_in_fanin_of_endpoints")
             if n in eset:
@@ -148,12 +165,12 @@ def check(case, ctx):
         elif "sat" not in mn.types:
             ctx.violation("sensitization_nosat", "no `sat` node")
         else:
-            mv, _ = sim.functions(mn, ins)
+            mv, _ = sim.functions(mn, ins_all)
             ctx.count("sens_possible" if diff else "sens_impossible")
             if mv["sat"] != diff:
                 d = mv["sat"] ^ diff
                 j = (d & -d).bit_length() - 1
-                ctx.violation("sensitization_sat", f"under {sim.index_valuation(ins, j)} sat={sim.bit_at(mv['sat'], j)} but inverting {n!r} {'changes' if sim.bit_at(diff, j) else 'does not change'} endpoints {sorted(eset)}")
+                ctx.violation("sensitization_sat", f"under {sim.index_valuation(ins_all, j)} sat={sim.bit_at(mv['sat'], j)} but inverting {n!r} {'changes' if sim.bit_at(diff, j) else 'does not change'} endpoints {sorted(eset)}")
 
     # ------------------------------------------------------------ sensitize (all outputs)
     diff_all = 0
@@ -164,15 +181,20 @@ def check(case, ctx):
     for x, v in A.items():
         vb = sim.var_bits(ins.index(x), k)
         dA &= vb if v else vb ^ mask
-    ok, r = ctx.call(cg.props.sensitize, c, n, dict(A) if A else None)
-    ctx.count("cmp:sensitize")
-    if not ok:
+    if xs:
+        ok, r = True, "skipped"  # sensitize looks at every output: the `x` node is in its scope
+    else:
+        ok, r = ctx.call(cg.props.sensitize, c, n, dict(A) if A else None)
+        ctx.count("cmp:sensitize")
+    if r == "skipped":
+        pass
+    elif not ok:
         ctx.violation("sensitize_raised", f"sensitize({n!r},{A}) raised {r!r}\n{getattr(r, '_tb', '')}")
     elif r is None:
         ctx.count("sensitize_none")
         if dA:
             j = (dA & -dA).bit_length() - 1
-            ctx.violation("sensitize_none_but_exists", f"sensitize({n!r},{A}) returned None but {sim.index_valuation(ins, j)} sensitizes it")
+            ctx.violation("sensitize_none_but_exists", f"sensitize({n!r},{A}) returned None but {sim.index_valuation(ins_all, j)} sensitizes it")
     else:
         ctx.count("sensitize_found")
         if not isinstance(r, dict) or not set(r) <= set(ins):
@@ -204,6 +226,14 @@ def check(case, ctx):
     want_infl = {s: Fraction(sim.popcount(fl[s]), 1 << k) for s in sp}
     ctx.count(f"sensitivity:{want_sens if want_sens < 4 else '4+'}")
 
+    if len(cd["nodes"]) % 2 == 0:
+        # the caller obtained the population-count block of this width earlier and edited its own copy
+        from rv.props._util import _damage
+
+        okp, pc = ctx.call(cg.logic.popcount, len(sp))
+        if okp:
+            _damage(pc)
+            ctx.count("popcount_block_edited_before_analysis")
     ok, st = ctx.call(cg.tx.sensitivity_transform, c, n)
     if not ok:
         ctx.violation("sensitivity_transform_raised", f"sensitivity_transform({n!r}) raised {st!r}\n{getattr(st, '_tb', '')}")
@@ -213,7 +243,7 @@ def check(case, ctx):
         if set(sn.free()) != set(sp):
             ctx.violation("sensitivity_transform_inputs", f"free signals {sorted(sn.free())} != startpoints {sp}")
         else:
-            sv, _ = sim.functions(sn, ins)
+            sv, _ = sim.functions(sn, ins_all)
             bad = False
             for s in sp:
                 name = f"dif_out_{s}"
@@ -224,7 +254,7 @@ def check(case, ctx):
                 if sv[name] != fl[s]:
                     d = sv[name] ^ fl[s]
                     j = (d & -d).bit_length() - 1
-                    ctx.violation("dif_out", f"under {sim.index_valuation(ins, j)} {name}={sim.bit_at(sv[name], j)} but flipping {s!r} {'flips' if sim.bit_at(fl[s], j) else 'does not flip'} {n!r}")
+                    ctx.violation("dif_out", f"under {sim.index_valuation(ins_all, j)} {name}={sim.bit_at(sv[name], j)} but flipping {s!r} {'flips' if sim.bit_at(fl[s], j) else 'does not flip'} {n!r}")
                     bad = True
                     break
             if not bad:
@@ -236,7 +266,7 @@ def check(case, ctx):
                     for j in range(1 << k):
                         got = sum(((sv[b] >> j) & 1) << o for o, b in enumerate(sen_bits))
                         if got != counts[j]:
-                            ctx.violation("sen_out", f"under {sim.index_valuation(ins, j)} sen_out encodes {got}, {counts[j]} startpoints flip {n!r}")
+                            ctx.violation("sen_out", f"under {sim.index_valuation(ins_all, j)} sen_out encodes {got}, {counts[j]} startpoints flip {n!r}")
                             break
 
     if len(sp) > (8 if ctx.tier == "thorough" else 6):
@@ -274,7 +304,7 @@ def check(case, ctx):
 
 
     # ------------------------------------------------------------ several nodes in one call
-    others = sorted(x for x, t in net.types.items() if x != n and t in sim.GATES and any(net.types[y] == "input" for y in reach(net.preds, [x])))
+    others = sorted(x for x, t in net.types.items() if x != n and t in sim.GATES and any(net.types[y] == "input" for y in reach(net.preds, [x])) and not any(net.types[y] == "x" for y in reach(net.preds, [x])))
     if not others or (len(cd["nodes"]) + len(cd["edges"])) % 3:
         return
     n2 = others[len(cd["edges"]) % len(others)]
@@ -312,7 +342,7 @@ def gates(counters, table, tier):
     for s in (1, 2, 3, 4, 5, 6, 7, 8):
         if counters.get(f"cone_startpoints:{s}", 0) < 3:
             out.append(f"cone with {s} startpoints seen {counters.get(f'cone_startpoints:{s}', 0)} times")
-    for k in ("mode:input", "mode:const_fn", "mode:output", "explicit_endpoints", "sens_impossible", "sens_possible", "sensitize_none", "sensitize_found", "sensitivity:0", "cmp:influence", "cmp:influence_of_two_nodes", "cmp:sensitivity_transform"):
+    for k in ("mode:input", "mode:const_fn", "mode:output", "explicit_endpoints", "sens_impossible", "sens_possible", "sensitize_none", "sensitize_found", "sensitivity:0", "cmp:influence", "cmp:influence_of_two_nodes", "cmp:sensitivity_transform", "x_constant_outside_the_cone", "popcount_block_edited_before_analysis"):
         if counters.get(k, 0) < 5:
             out.append(f"{k} seen {counters.get(k, 0)} times")
     return out
